@@ -5,6 +5,7 @@ package main
 import (
 	"bytes"
 	"fmt"
+	"reflect"
 	"sort"
 	"strings"
 	"time"
@@ -235,6 +236,93 @@ func (em *Emitter) state(d *Dump) string {
 	}
 	b.WriteString("])")
 	return b.String()
+}
+
+// patch renders post as a patch over pre (nil pre = the empty database)
+func (em *Emitter) patch(pre, post *Dump) string {
+	if pre == nil {
+		pre = &Dump{}
+	}
+	up := &Dump{}
+	var xt, xs, xm, xd, xn []uuid.UUID
+	{
+		old := map[uuid.UUID]TopicRow{}
+		for _, r := range pre.Topics {
+			old[r.ID] = r
+		}
+		for _, r := range post.Topics {
+			if o, ok := old[r.ID]; !ok || !reflect.DeepEqual(o, r) {
+				up.Topics = append(up.Topics, r)
+			}
+			delete(old, r.ID)
+		}
+		for id := range old {
+			xt = append(xt, id)
+		}
+	}
+	{
+		old := map[uuid.UUID]SubRow{}
+		for _, r := range pre.Subs {
+			old[r.ID] = r
+		}
+		for _, r := range post.Subs {
+			if o, ok := old[r.ID]; !ok || !reflect.DeepEqual(o, r) {
+				up.Subs = append(up.Subs, r)
+			}
+			delete(old, r.ID)
+		}
+		for id := range old {
+			xs = append(xs, id)
+		}
+	}
+	{
+		old := map[uuid.UUID]MsgRow{}
+		for _, r := range pre.Msgs {
+			old[r.ID] = r
+		}
+		for _, r := range post.Msgs {
+			if o, ok := old[r.ID]; !ok || !reflect.DeepEqual(o, r) {
+				up.Msgs = append(up.Msgs, r)
+			}
+			delete(old, r.ID)
+		}
+		for id := range old {
+			xm = append(xm, id)
+		}
+	}
+	{
+		old := map[uuid.UUID]DelRow{}
+		for _, r := range pre.Dels {
+			old[r.ID] = r
+		}
+		for _, r := range post.Dels {
+			if o, ok := old[r.ID]; !ok || !reflect.DeepEqual(o, r) {
+				up.Dels = append(up.Dels, r)
+			}
+			delete(old, r.ID)
+		}
+		for id := range old {
+			xd = append(xd, id)
+		}
+	}
+	{
+		old := map[uuid.UUID]SnapRow{}
+		for _, r := range pre.Snaps {
+			old[r.ID] = r
+		}
+		for _, r := range post.Snaps {
+			if o, ok := old[r.ID]; !ok || !reflect.DeepEqual(o, r) {
+				up.Snaps = append(up.Snaps, r)
+			}
+			delete(old, r.ID)
+		}
+		for id := range old {
+			xn = append(xn, id)
+		}
+	}
+	st := em.state(up) // "(mkState [..] [..] [..] [..] [..])"
+	st = strings.TrimSuffix(strings.TrimPrefix(st, "(mkState "), ")")
+	return "(mkPatch " + st + " " + em.ids(xt) + " " + em.ids(xs) + " " + em.ids(xm) + " " + em.ids(xd) + " " + em.ids(xn) + ")"
 }
 
 func (em *Emitter) tok(s string) string {
@@ -472,14 +560,16 @@ func (em *Emitter) resp(r *Resp) string {
 func EmitHistory(name string, h []*Obs) string {
 	em := NewEmitter(h)
 	var b bytes.Buffer
-	fmt.Fprintf(&b, "Definition %s : list obs := [\n", name)
+	fmt.Fprintf(&b, "Definition %s : list obs := build [\n", name)
 	first := true
+	var prev *Dump
 	for _, o := range h {
 		if !first {
 			b.WriteString(";\n")
 		}
 		first = false
-		fmt.Fprintf(&b, "  mkObs %s %s\n    %s\n    %s\n    %s %s", coqZ(o.Lo), coqZ(o.Hi), em.op(o.Op), em.resp(o.Resp), em.state(o.Post), coqBool(o.Skip != ""))
+		fmt.Fprintf(&b, "  mkRaw %s %s\n    %s\n    %s\n    %s %s", coqZ(o.Lo), coqZ(o.Hi), em.op(o.Op), em.resp(o.Resp), em.patch(prev, o.Post), coqBool(o.Skip != ""))
+		prev = o.Post
 	}
 	b.WriteString("\n].\n")
 	return b.String()
